@@ -154,6 +154,23 @@ impl Obs {
     }
 }
 
+/// `render_block` and its writer sibling `render_block_to` (own existence test and own buffer
+/// hand-over in the engine): one answer, or an `ApiMismatch` error no reference ever expects.
+fn render_block_both(t: &tera::Tera, name: &str, block: &str, ctx: &tera::Context) -> Out {
+    let a = engine::render_block(t, name, block, ctx);
+    let mut buf: Vec<u8> = vec![];
+    let b = match engine::guarded(|| t.render_block_to(name, block, ctx, &mut buf)) {
+        Ok(Ok(())) => Out::Ok(String::from_utf8_lossy(&buf).into_owned()),
+        Ok(Err(e)) => Out::Err(engine::kind_tag(e.kind()).to_string(), engine::err_message(&e)),
+        Err(p) => Out::Panic(p),
+    };
+    if a.coarse() == b.coarse() {
+        a
+    } else {
+        Out::Err("ApiMismatch".into(), format!("render_block gives {}, render_block_to gives {}", a.show(), b.show()))
+    }
+}
+
 /// Registers `bodies[k]` (source of level k without its extends tag) as `reg` says on a fresh
 /// engine, then renders every registered level and every probe block of it.
 fn observe(bodies: &[&str], reg: &Registration) -> (Obs, Vec<(String, String)>) {
@@ -195,7 +212,7 @@ fn observe(bodies: &[&str], reg: &Registration) -> (Obs, Vec<(String, String)>) 
             let name = reg.names[k].as_str();
             Some(LevelObs {
                 render: engine::render(&t, name, &ctx),
-                blocks: PROBES.iter().map(|b| engine::render_block(&t, name, b, &ctx)).collect(),
+                blocks: PROBES.iter().map(|b| render_block_both(&t, name, b, &ctx)).collect(),
             })
         })
         .collect();
@@ -222,7 +239,7 @@ fn observe_history(names: &[String], from: usize, steps: &[Vec<(String, String)>
             }
             Some(LevelObs {
                 render: engine::render(&t, name, &ctx),
-                blocks: PROBES.iter().map(|b| engine::render_block(&t, name, b, &ctx)).collect(),
+                blocks: PROBES.iter().map(|b| render_block_both(&t, name, b, &ctx)).collect(),
             })
         })
         .collect();
